@@ -243,3 +243,7 @@ def run(tier, V):
                    'with g the empty match at the very end of a line is not taken (neatvi\'s choice; the statement does not require it)',
                    'replacements that would insert a line break are skipped']
     return cov, assumptions
+
+
+def REPLAY(w):
+    return run_case((build('asan'), w['index']))[:2]
